@@ -26,7 +26,8 @@ func init() {
 			" Round 4: (R10) no address of a per-loop variable is kept across iterations (go 1.19 loop-variable semantics)." +
 			" (R11) the identity of a subroutine activation is an offset-derived instruction field (same rule as C01.R10)." +
 			" Round 5: (R12) group numbering restarts with every regexp literal." +
-			" Round 6: (R13) steering instructions cannot fail; (R14) the command's own names win over stored definitions; (R15) every field of a VM record that is read is also written somewhere; (R16) every process run gets its own environment.",
+			" Round 6: (R13) steering instructions cannot fail; (R14) the command's own names win over stored definitions; (R15) every field of a VM record that is read is also written somewhere; (R16) every process run gets its own environment." +
+			" Round 8: (R17) in the text entry point each command searches the whole text given, on a reader made for it, and nothing computed for one command reaches the next.",
 		Assumptions: commonAssumptions,
 		Rules: []RuleFn{
 			{Name: "C13.R1", Run: func(c *Ctx) { ruleAdjustPure(c, "C13.R1") }},
@@ -43,6 +44,7 @@ func init() {
 			{Name: "C13.R14", Run: func(c *Ctx) { ruleScopeBeforeDefinitions(c, "C13.R14") }},
 			{Name: "C13.R15", Run: func(c *Ctx) { ruleRecordFieldsReadAreWritten(c, "C13.R15") }},
 			{Name: "C13.R16", Run: func(c *Ctx) { ruleProcessEnvFresh(c, "C13.R16") }},
+			{Name: "C13.R17", Run: func(c *Ctx) { ruleCommandsIndependent(c, "C13.R17") }},
 			{Name: "C13.R3", Run: func(c *Ctx) { ruleProgramReadOnly(c, "C13.R3") }},
 			{Name: "C13.R4", Run: func(c *Ctx) { ruleCommandScope(c, "C13.R4") }},
 			{Name: "C13.R6", Run: func(c *Ctx) { ruleAttemptFresh(c, "C13.R6") }},
@@ -56,7 +58,8 @@ func init() {
 			" Round 4: (R8) with every read at the current offset returning \"\" and the offset equal to reader.Size(), no primitive reaches CONSUME (helpers that consume for their callers hand the obligation on; CONSUME(reader.Size()) and progress-tested CONSUMEs exempt); (R9) the zero-width cut is control-dependent on `iteration >= MinLoops`." +
 			" (R10) the identity of a subroutine activation is an offset-derived instruction field." +
 			" Round 5: (R11) the empty text matches with zero width; (R12) Reader.Read/ReadAt return nothing or exactly the bytes asked for; (R13) the generator does not reorder AST items; (R14) renumbering passes cover every program-counter field." +
-			" Round 6: (R15) the handlers of steering instructions (call, jump, branch, capture/subroutine/not-in markers) cannot reach BACKTRACK; (R16) a MatchLiteral carries the Value, Not and Caseless of one AST string node unchanged.",
+			" Round 6: (R15) the handlers of steering instructions (call, jump, branch, capture/subroutine/not-in markers) cannot reach BACKTRACK; (R16) a MatchLiteral carries the Value, Not and Caseless of one AST string node unchanged." +
+			" Round 8: (R17) with one byte left that is a newline (READ(1) = \"\\n\", every longer read = \"\") the line-end primitive reaches NEXT and not BACKTRACK; the same for a final \"\\r\\n\".",
 		Assumptions: commonAssumptions,
 		Rules: []RuleFn{
 			{Name: "C01.R1", Run: func(c *Ctx) {
@@ -85,6 +88,7 @@ func init() {
 			{Name: "C01.R14", Run: func(c *Ctx) { ruleRenumberingComplete(c, "C01.R14") }},
 			{Name: "C01.R15", Run: func(c *Ctx) { ruleSteeringInstructionsCannotFail(c, "C01.R15") }},
 			{Name: "C01.R16", Run: func(c *Ctx) { ruleLiteralInstructionIsTheLiteral(c, "C01.R16") }},
+			{Name: "C01.R17", Run: func(c *Ctx) { ruleLineEndsBeforeLastNewline(c, "C01.R17") }},
 			{Name: "C01.R3", Run: func(c *Ctx) { ruleScanDiscipline(c, "C01.R3"); ruleAttemptFresh(c, "C01.R3b") }},
 		},
 	})
@@ -94,7 +98,8 @@ func init() {
 			"Scoped exclusions: the saved snapshots reachable only through `backtrack` (LIFO argument, stated) and the shared reader. Does NOT decide which binding is the most recent one when a name is bound repeatedly, nor named-loop nesting." +
 			" Round 4: (R7) the restore used by BACKTRACK assigns every field of the state that matching writes, from the same field of the checkpoint; (R8) a loop record's bindings are indexed with that record's own iteration counter." +
 			" Round 5: (R9) the empty text matches with zero width; (R10) a variable reference is not compiled to a literal." +
-			" Round 6: (R11) a stored definition is read only where the lookup in the command's own scope has missed; (R12) MATCHVAR reads from every table INSERTVARIABLE writes to, and its lookup helper asks the environment before it answers a miss; (R13) an unbound back-reference backtracks.",
+			" Round 6: (R11) a stored definition is read only where the lookup in the command's own scope has missed; (R12) MATCHVAR reads from every table INSERTVARIABLE writes to, and its lookup helper asks the environment before it answers a miss; (R13) an unbound back-reference backtracks." +
+			" Round 8: (R14) a loop iteration that consumed nothing does not go round again (shared with C10).",
 		Assumptions: commonAssumptions,
 		Rules: []RuleFn{
 			{Name: "C02.R1", Run: func(c *Ctx) { ruleSnapshotIsolation(c, "C02.R1") }},
@@ -109,6 +114,7 @@ func init() {
 			{Name: "C02.R11", Run: func(c *Ctx) { ruleScopeBeforeDefinitions(c, "C02.R11") }},
 			{Name: "C02.R12", Run: func(c *Ctx) { ruleBindingReaderCoversWriter(c, "C02.R12") }},
 			{Name: "C02.R13", Run: func(c *Ctx) { ruleUnboundReferenceFails(c, "C02.R13") }},
+			{Name: "C02.R14", Run: func(c *Ctx) { ruleZeroWidthGuard(c, "C02.R14") }},
 		},
 	})
 	register(&Property{
@@ -138,7 +144,8 @@ func init() {
 			" Round 4: (R10) the built-in matchNumber derives from Match.MatchNumber." +
 			" (R11) with every status read fixed to the one set by `return`, no loop that runs process statements goes round again." +
 			" Round 5: (R12) captures are bound as strings for process code." +
-			" Round 6: (R13) with every status read fixed to NEXT the loop executor cannot return: a `loop` ends only by break or return.",
+			" Round 6: (R13) with every status read fixed to NEXT the loop executor cannot return: a `loop` ends only by break or return." +
+			" Round 8: (R14) a ReplaceString built by the generator carries the Value of one AST string node unchanged; R10 now also requires the two bindings of matchNumber in the tables that replacers and transforms read.",
 		Assumptions: commonAssumptions,
 		Rules: []RuleFn{
 			{Name: "C05.R1", Run: func(c *Ctx) {
@@ -156,6 +163,7 @@ func init() {
 			{Name: "C05.R11", Run: func(c *Ctx) { ruleReturnStopsStatements(c, "C05.R11") }},
 			{Name: "C05.R12", Run: func(c *Ctx) { ruleCapturesAreStrings(c, "C05.R12") }},
 			{Name: "C05.R13", Run: func(c *Ctx) { ruleProcessLoopEndsOnlyOnRequest(c, "C05.R13") }},
+			{Name: "C05.R14", Run: func(c *Ctx) { ruleReplaceStringIsTheLiteral(c, "C05.R14") }},
 			{Name: "C05.R5", Run: func(c *Ctx) { rulePlumbing(c, "C05.R5") }},
 			{Name: "C05.R6", Run: func(c *Ctx) { ruleItemKinds(c, "C05.R6") }},
 		},
@@ -166,7 +174,8 @@ func init() {
 			"Does NOT decide the queue's arithmetic beyond that Limit pops from the front." +
 			" Round 4: (R6) the number handed to MakeMatch is the scan's match counter + 1; (R7) each match gets a replacer state of its own." +
 			" (R8) with `all` fixed to true, collecting a match still depends on a test of skip." +
-			" Round 5: (R9) every match of the window yields one replaced match.",
+			" Round 5: (R9) every match of the window yields one replaced match." +
+			" Round 8: (R10) nothing at run time writes into the compiled program (skip/take/last are read from it for every file); (R11) commands are independent of each other in the text entry point.",
 		Assumptions: commonAssumptions,
 		Rules: []RuleFn{
 			{Name: "C04.R1", Run: func(c *Ctx) { ruleScanNonInterference(c, "C04.R1") }},
@@ -178,6 +187,8 @@ func init() {
 			{Name: "C04.R7", Run: func(c *Ctx) { rulePerMatchReplacer(c, "C04.R7") }},
 			{Name: "C04.R8", Run: func(c *Ctx) { ruleSkipAppliesWhenAllIsSet(c, "C04.R8") }},
 			{Name: "C04.R9", Run: func(c *Ctx) { ruleEveryMatchIsReplaced(c, "C04.R9") }},
+			{Name: "C04.R10", Run: func(c *Ctx) { ruleProgramReadOnly(c, "C04.R10") }},
+			{Name: "C04.R11", Run: func(c *Ctx) { ruleCommandsIndependent(c, "C04.R11") }},
 		},
 	})
 	register(&Property{
@@ -187,7 +198,8 @@ func init() {
 			" Round 4: (R11) every mutex locked in the compile path is released on every path out of the function; (R12) variable indexes into fixed-size tables are bounded by the table length." +
 			" Round 5: (R13) getTokens stops on every EOF token." +
 			" Round 6: (R14) every integer division between source text and program has a divisor that is a non-zero constant or was tested against zero." +
-			" (R15) no pointer that can be nil is converted to the error interface; (R16) constant indexes into program texts and lists in the generator are guarded by a length test.",
+			" (R15) no pointer that can be nil is converted to the error interface; (R16) constant indexes into program texts and lists in the generator are guarded by a length test." +
+			" Round 8: (R17) a text whose failed strconv conversion panics has a constant bound on its length under which every text fits the bit size; (R18) nothing in package ast appends a foreign token to a re-slice of, or stores into, the token list it was handed.",
 		Assumptions: append([]string{"tokens always ends in an EOF token and consumeIgnoreableTokens never steps past it (axioms A1, A2)", "bufio.Reader's end of input is sticky (A3)"}, commonAssumptions...),
 		Rules: []RuleFn{
 			{Name: "C08.R1", Run: func(c *Ctx) { ruleEOFWorld(c, "C08.R1") }},
@@ -215,6 +227,8 @@ func init() {
 			{Name: "C08.R14", Run: func(c *Ctx) { ruleNoUnguardedDivision(c, "C08.R14") }},
 			{Name: "C08.R15", Run: func(c *Ctx) { ruleNoTypedNilError(c, "C08.R15") }},
 			{Name: "C08.R16", Run: func(c *Ctx) { ruleConstantIndexesGuarded(c, "C08.R16", []string{"bytecode"}) }},
+			{Name: "C08.R17", Run: func(c *Ctx) { ruleParsePanicInputBounded(c, "C08.R17") }},
+			{Name: "C08.R18", Run: func(c *Ctx) { ruleTokenListReadOnly(c, "C08.R18") }},
 		},
 	})
 	register(&Property{
@@ -264,7 +278,8 @@ func init() {
 			"Does NOT decide index safety that depends on VM invariants (branch lists non-empty, capture offsets inside the match, jump targets in range) nor process loops that never end." +
 			" Round 4: (R15) variable indexes into fixed-size tables are bounded by the table length. (R16) the token kinds the list parser admits, the classes parse_character_class makes of them and GetMaxSize agree: no admitted class has a negative size." +
 			" Round 5: (R17) no allocation is sized by a number written in the program." +
-			" Round 6: (R18) the handlers of steering instructions cannot fail; (R19) a listed directory entry is used as a file only behind an IsDir test; (R20) every replace mode has a writer (CONFIRM: known finding); (R21) no method call on a result that may be a nil interface without a nil test.",
+			" Round 6: (R18) the handlers of steering instructions cannot fail; (R19) a listed directory entry is used as a file only behind an IsDir test; (R20) every replace mode has a writer (CONFIRM: known finding); (R21) no method call on a result that may be a nil interface without a nil test." +
+			" Round 8: (R22) relocation builds new instructions and leaves its receiver alone; (R23) the window of a match is applied where the scan counts matches. (R24) what is allocated because more is needed than the capacity holds is sized by what is needed.",
 		Assumptions: commonAssumptions,
 		Rules: []RuleFn{
 			{Name: "C09.R1", Run: func(c *Ctx) {
@@ -339,13 +354,17 @@ func init() {
 			{Name: "C09.R19", Run: func(c *Ctx) { ruleListedEntriesAreFiles(c, "C09.R19") }},
 			{Name: "C09.R20", Run: func(c *Ctx) { ruleEveryModeHasWriter(c, "C09.R20") }},
 			{Name: "C09.R21", Run: func(c *Ctx) { ruleNoMethodOnNilResult(c, "C09.R21") }},
+			{Name: "C09.R22", Run: func(c *Ctx) { ruleAdjustPure(c, "C09.R22") }},
+			{Name: "C09.R23", Run: func(c *Ctx) { ruleWindow(c, "C09.R23") }},
+			{Name: "C09.R24", Run: func(c *Ctx) { ruleGrowthCoversNeed(c, "C09.R24") }},
 		},
 	})
 	register(&Property{
 		ID: "C20",
 		Explanation: "Correctness of the star matcher (pathMatches, SplitKeep, Window) is a string-algorithm property and is NOT decided; its first-occurrence search after a star is invisible to a sound structural rule. Decided (`none extra ... directories are never listed`): (R1) every path that GetFileList itself adds to its result is control-dependent on `not a directory` and on pathMatches against the pattern segment, and every recursive call is made on the shrunk pattern, so recursion depth is bounded by the number of segments; (R2) no path or file name is cut with a cutset of two or more different characters that includes a file-name character (strings.TrimLeft(p, \"./\") eats the dot of dot-names); (R3) a conjunction of HasPrefix and HasSuffix on one name comes with a comparison of the lengths (the affixes may overlap otherwise)." +
 			" Round 4: (R4) a parsed Path is immutable; (R5) no byte of a pattern is converted to a string as a code point." +
-			" Round 5: (R6) the listing reads no package-level variable that the program writes.",
+			" Round 5: (R6) the listing reads no package-level variable that the program writes." +
+			" Round 8: (R7) no address of a per-iteration variable is kept anywhere between source and results.",
 		Assumptions: commonAssumptions,
 		Rules: []RuleFn{
 			{Name: "C20.R1", Run: func(c *Ctx) { ruleFileListGuards(c, "C20.R1") }},
@@ -354,6 +373,9 @@ func init() {
 			{Name: "C20.R4", Run: func(c *Ctx) { rulePathImmutable(c, "C20.R4") }},
 			{Name: "C20.R5", Run: func(c *Ctx) { ruleNoByteToStringConversion(c, "C20.R5", []string{"files", "algo"}) }},
 			{Name: "C20.R6", Run: func(c *Ctx) { ruleListingReadsNoRunTimeState(c, "C20.R6") }},
+			{Name: "C20.R7", Run: func(c *Ctx) {
+				ruleLoopVarAddressNotKept(c, "C20.R7", []string{"ast", "bytecode", "engine", "libvore", "files"})
+			}},
 		},
 	})
 	register(&Property{
@@ -388,7 +410,8 @@ func init() {
 			"(R2) the nine coercion accessors compute the documented conversions; (R3) the Pratt parser's binding powers give the documented precedence levels and left associativity; (R4) not/head/tail. " +
 			"Does NOT decide strconv and Go operator semantics (trusted), nor integer overflow behaviour." +
 			" Round 4: (R6) `return` ends the process code (same rule as C05.R11)." +
-			" Round 6: (R7) a `loop` ends only by break or return (shared with C05); (R8) a failed number conversion in the parser is a parse error on every path.",
+			" Round 6: (R7) a `loop` ends only by break or return (shared with C05); (R8) a failed number conversion in the parser is a parse error on every path." +
+			" Round 8: (R9) where a variable is looked up, whatever is handed on and depends on the looked-up value is that value itself, never a value built out of it.",
 		Assumptions: append([]string{"the documentation table is the specification; a documented row with a coerced-number left operand denotes string-on-the-left with a number on the right"}, commonAssumptions...),
 		Rules: []RuleFn{
 			{Name: "C11.R1", Run: func(c *Ctx) { ruleEvaluatorTable(c, "C11.R1") }},
@@ -399,13 +422,15 @@ func init() {
 			{Name: "C11.R6", Run: func(c *Ctx) { ruleReturnStopsStatements(c, "C11.R6") }},
 			{Name: "C11.R7", Run: func(c *Ctx) { ruleProcessLoopEndsOnlyOnRequest(c, "C11.R7") }},
 			{Name: "C11.R8", Run: func(c *Ctx) { ruleNumberConversionErrorsPropagate(c, "C11.R8") }},
+			{Name: "C11.R9", Run: func(c *Ctx) { ruleVariableReadIsStoredValue(c, "C11.R9") }},
 		},
 	})
 	register(&Property{
 		ID: "C12",
 		Explanation: "Decides that the static checker accepts exactly the documented operand-type combinations: (R1) the full decision table of checkBinaryExpr/checkUnaryExpr over {string,number,bool,error}^2 x 13 operators (208+12 cells, extracted by partial evaluation) equals the documented table in both directions, including error propagation from either operand; " +
 			"(R2) every accepted cell has a non-panicking evaluator leaf of the promised result type; (R3) statement rules: if needs bool, return by context, break/continue only in loop, loop restores the inLoop flag; (R4) both generators run the checker on every statement before succeeding; (R5) statement/expression dispatch completeness; (R6) error discipline of the checker: the verdict of a check call is compared with PTERROR or returned before it is handed to the next check call; (R7) every body is checked against a type environment created for that body. " +
-			"Does NOT decide flow-sensitive typing (excluded by the property).",
+			"Does NOT decide flow-sensitive typing (excluded by the property)." +
+			" Round 8: (R9) no function of package ast returns an operand taken out of an expression node in place of a node.",
 		Assumptions: append([]string{"the documentation table is the specification"}, commonAssumptions...),
 		Rules: []RuleFn{
 			{Name: "C12.R1", Run: func(c *Ctx) { t := ruleCheckerTable(c, "C12.R1"); ruleCheckerSubsetEvaluator(c, "C12.R2", t) }},
@@ -414,6 +439,7 @@ func init() {
 			{Name: "C12.R6", Run: func(c *Ctx) { ruleCheckErrorsPropagate(c, "C12.R6") }},
 			{Name: "C12.R7", Run: func(c *Ctx) { ruleCheckerEnvFresh(c, "C12.R7") }},
 			{Name: "C12.R8", Run: func(c *Ctx) { ruleBuiltinsWin(c, "C12.R8") }},
+			{Name: "C12.R9", Run: func(c *Ctx) { ruleParserKeepsOperators(c, "C12.R9") }},
 			{Name: "C12.R5", Run: func(c *Ctx) {
 				ruleTypeSwitchComplete(c, "C12.R5", []string{"bytecode", "engine"}, func(n *types.Named) bool {
 					return n.Obj().Name() == "AstProcessStatement" || n.Obj().Name() == "AstProcessExpression"
@@ -426,7 +452,8 @@ func init() {
 		Explanation: "Equivalence with a regex engine is NOT decided (value-level; it is C01 plus this). Decided: the regex-specific translation tables and the numbering order - (R1) the quantifier table of parse_regexp_quantifier, extracted from the AstLoop literals and the character tests that control them (* + ? {m} {m,} {m,n}), and that the lazy marker applies to every quantifier; (R2) the atom table (^ $ . \\d \\D \\s \\S); (R3) a capturing group reads its number before its body is parsed (numbering by opening parenthesis)." +
 			" Round 4: (R6) the loop-stack protocol (same rule as C01.R5); (R7) no byte of a regexp literal is converted to a string as a code point; (R8) the scan discipline (same rule as C01.R3)." +
 			" Round 5: (R9) group numbering restarts per literal and every capturing group takes a number; (R10) the empty text matches with zero width; (R11) renumbering passes cover every program-counter field." +
-			" Round 6: (R12) checkpoints are isolated snapshots; (R13) every attempt starts from a fresh state; (R14) alternatives are tried in written order; (R15) the compiled program is read-only at run time; (R16) the copies of an unrolled loop body may each declare the body's captures; (R17) an unbound back-reference fails.",
+			" Round 6: (R12) checkpoints are isolated snapshots; (R13) every attempt starts from a fresh state; (R14) alternatives are tried in written order; (R15) the compiled program is read-only at run time; (R16) the copies of an unrolled loop body may each declare the body's captures; (R17) an unbound back-reference fails." +
+			" Round 8: (R18) a line ends in front of the last newline of the input (shared with C01).",
 		Assumptions: commonAssumptions,
 		Rules: []RuleFn{
 			{Name: "C14.R1", Run: func(c *Ctx) { ruleRegexQuantifiers(c, "C14.R1") }},
@@ -446,6 +473,7 @@ func init() {
 			{Name: "C14.R15", Run: func(c *Ctx) { ruleProgramReadOnly(c, "C14.R15") }},
 			{Name: "C14.R16", Run: func(c *Ctx) { ruleUnrolledBodiesMayDeclare(c, "C14.R16") }},
 			{Name: "C14.R17", Run: func(c *Ctx) { ruleUnboundReferenceFails(c, "C14.R17") }},
+			{Name: "C14.R18", Run: func(c *Ctx) { ruleLineEndsBeforeLastNewline(c, "C14.R18") }},
 		},
 	})
 	register(&Property{
@@ -454,7 +482,8 @@ func init() {
 			"A raw decision means: inserting a blank or a comment at that gap changes the branch taken. Does NOT decide the lexer's comment state machine nor equality of the resulting syntax trees." +
 			" Round 4: (R6) with the lexer state fixed to a comment state only arms reached because of the state (or end-of-input arms) stay reachable." +
 			" Round 5: (R7) a newline ends a line comment in each of its states; (R8) the first character of the block comment's end marker restarts the recognition from every recognition state (state and character fixed)." +
-			" Round 6: (R9) nothing Compile writes at package level survives into the next compilation unseen; (R10) the lexer's look-ahead is a Peek of a small constant and never depends on what is buffered; (R11) the command parser answers the EOF token without an error.",
+			" Round 6: (R9) nothing Compile writes at package level survives into the next compilation unseen; (R10) the lexer's look-ahead is a Peek of a small constant and never depends on what is buffered; (R11) the command parser answers the EOF token without an error." +
+			" Round 8: (R12) in a string state, on the string's own quote, the lexer leaves the literal without looking at what follows. (R13) the token list is not written after the lexer (shared with C08).",
 		Assumptions: commonAssumptions,
 		Rules: []RuleFn{
 			{Name: "C15.R1", Run: func(c *Ctx) {
@@ -473,6 +502,8 @@ func init() {
 			{Name: "C15.R9", Run: func(c *Ctx) { ruleGlobalsReinit(c, "C15.R9") }},
 			{Name: "C15.R10", Run: func(c *Ctx) { ruleLexerLookaheadFixed(c, "C15.R10") }},
 			{Name: "C15.R11", Run: func(c *Ctx) { ruleEOFIsNotACommandError(c, "C15.R11") }},
+			{Name: "C15.R12", Run: func(c *Ctx) { ruleQuoteEndsString(c, "C15.R12") }},
+			{Name: "C15.R13", Run: func(c *Ctx) { ruleTokenListReadOnly(c, "C15.R13") }},
 		},
 	})
 	register(&Property{
@@ -480,7 +511,8 @@ func init() {
 		Explanation: "Decides the structural part of string-literal decoding: (R1) the lexer's push-back never exceeds what bufio.Reader can undo (capacity 1 while unread() relies on UnreadRune); (R2) the escape table of getEscapedRune, folded over every ASCII rune, is the documented one (n t r a b f v, identity otherwise); (R3) the double-quote and single-quote branches of the lexer are identical up to their state constants and quote character; (R4) IsHex accepts exactly the hex digits and HexToAscii parses base 16; (R5) read() hands out exactly the rune of one ReadRune call; (R6) an escape state lasts for one decision: every path out of the arm guarded by it continues in the string state it was entered from. " +
 			"Does NOT decide the state machine as a whole (that every byte string round-trips), only these necessary conditions." +
 			" Round 4: (R7) with the lexer state fixed to a string state only arms reached because of the state (or end-of-input arms) stay reachable; (R8) the builders of a literal's node read no package-level variable that Compile writes." +
-			" Round 6: (R9) as C15.R9; (R10) as C15.R10; (R11) a MatchLiteral carries one AST literal unchanged.",
+			" Round 6: (R9) as C15.R9; (R10) as C15.R10; (R11) a MatchLiteral carries one AST literal unchanged." +
+			" Round 8: (R12) nothing in package ast trims or replaces inside the text of a token; (R13) as C15.R12.",
 		Assumptions: append([]string{"bufio.Reader.UnreadRune supports a single level of push-back (documented)"}, commonAssumptions...),
 		Rules: []RuleFn{
 			{Name: "C16.R1", Run: func(c *Ctx) { ruleUnreadDepth(c, "C16.R1") }},
@@ -493,6 +525,8 @@ func init() {
 			{Name: "C16.R9", Run: func(c *Ctx) { ruleGlobalsReinit(c, "C16.R9") }},
 			{Name: "C16.R10", Run: func(c *Ctx) { ruleLexerLookaheadFixed(c, "C16.R10") }},
 			{Name: "C16.R11", Run: func(c *Ctx) { ruleLiteralInstructionIsTheLiteral(c, "C16.R11") }},
+			{Name: "C16.R12", Run: func(c *Ctx) { ruleTokenTextNotCut(c, "C16.R12") }},
+			{Name: "C16.R13", Run: func(c *Ctx) { ruleQuoteEndsString(c, "C16.R13") }},
 		},
 	})
 	register(&Property{
@@ -515,7 +549,8 @@ func init() {
 		Explanation: "Decides structural conditions of the command-line tool in package main: (R1) every os.OpenFile used for the JSON output files has a write access mode and permission bits, and every document written to a file is preceded by O_TRUNC or a dominating Truncate of that file (also inside the helper that returns the file); (R2) on every path of main.main that can continue to the statement printing the JSON document, no other call may write to standard output (call graph closure over fmt.Print*/os.Stdout; exempt: calls control-dependent on -debug, the user-requested debug statement, paths cut by os.Exit/log.Fatal/return or by contradictory flag conditions); (R3) every failure exit has a non-zero status and cannot execute after RunFiles; (R4) the -replace-mode table (partial evaluation of replaceMode) and the NEW default; (R5) the documented flags are registered with the documented kinds (anywhere in package main); (R6) no path is cut with a multi-character cutset. Flags may be variables or fields of an options struct. " +
 			"Does NOT decide the process-level behaviour of the built binary (exit status, bytes on stdout)." +
 			" Round 4: (R9) the searched file list never contains a directory (same rule as C20.R1)." +
-			" Round 5: (R10) no computed text is used as a format string; (R11) no output file is opened before the program compiled.",
+			" Round 5: (R10) no computed text is used as a format string; (R11) no output file is opened before the program compiled." +
+			" Round 8: (R12) Compile never returns (nil, nil). (R13) a growing buffer covers the request that made it grow (shared with C09).",
 		Assumptions: append([]string{"flag.PrintDefaults, log.Fatal and the builtin println write to standard error"}, commonAssumptions...),
 		Rules: []RuleFn{
 			{Name: "C18.R1", Run: func(c *Ctx) { ruleCLIOpenForWriting(c, "C18.R1") }},
@@ -529,6 +564,8 @@ func init() {
 			{Name: "C18.R9", Run: func(c *Ctx) { ruleFileListGuards(c, "C18.R9") }},
 			{Name: "C18.R10", Run: func(c *Ctx) { ruleNoDataAsFormat(c, "C18.R10", []string{"main"}) }},
 			{Name: "C18.R11", Run: func(c *Ctx) { ruleNoFileBeforeCompile(c, "C18.R11") }},
+			{Name: "C18.R12", Run: func(c *Ctx) { ruleCompileNeverNilNil(c, "C18.R12") }},
+			{Name: "C18.R13", Run: func(c *Ctx) { ruleGrowthCoversNeed(c, "C18.R13") }},
 		},
 	})
 	register(&Property{
